@@ -16,6 +16,12 @@ CHECKS = {
  "C06": dict(engine="enum", technique="exhaustive enumeration of all sentences of the condition grammar up to a token bound against a recursive-descent reference evaluator",
    text="All sentences of the condition grammar with up to 9 (quick) / 12 (thorough) tokens are evaluated by the real not / if / elseif / while commands and compared with a recursive-descent evaluator of the statement's grammar; the truthiness table is swept exhaustively over all case variants of false/no/true/yes and boundary spellings in six statement frames.",
    note="Trusted: the reference evaluator; marker commands registered by the harness to observe which branch ran.", ref="5/C06"),
+ "C16": dict(engine="enum", technique="bounded-exhaustive enumeration of argument values against Rust's own string and number operations",
+   text="Every text up to length 3 (quick) / 4 (thorough) over {a b SP e-acute emoji} with every needle up to length 2 and every index pair from -(len+2) to len+2 is run through the real string commands and compared with the plain Rust operation in byte units; substring must give the slice or the error result (never a panic or a wrong value); less_than/greater_than over a 16x16 pool, calc over exactly representable expressions, range over an integer grid.",
+   note="Trusted: Rust's str methods as the meaning of 'the plain string operation'; an index equal to the text length is left open as the property allows.", ref="5/C16"),
+ "C17": dict(engine="enum", technique="bounded-exhaustive enumeration of texts, integers, JSON documents and maps with round-trip oracles",
+   text="Every text up to length 4/5 over an alphabet with multi-byte, 4-byte, NUL and LF characters goes through both byte/base64 round trips; every integer up to 2^16 / 2^20 and the neighbourhood of every power of two up to 2^64 through hex; every JSON document of depth 2 (quick) / 3 (thorough, covering subset) and width 2 through json_parse/json_encode --collection against the documented normalisation; every small map through the properties round trip.",
+   note="Trusted: serde_json for reading the produced JSON; the harness reads byte arrays and maps directly from the handle table.", ref="5/C17"),
 }
 
 NOT_YET = {
